@@ -222,6 +222,7 @@ pub fn run(_tier: &str) -> i32 {
         eprintln!("C18S: machinery error: no safe configuration started; the slice cannot tell refusal from breakage");
         return 2;
     }
+    release_ports();
     println!("C18S-RESULT {}", json!({"launches":jobs.len(),"cases":cs.len(),"unsafe_refused":refused_unsafe,"safe_started":started_safe,"outcomes":outcomes,"violations":viol.to_json()}));
     0
 }
